@@ -118,10 +118,17 @@ def diff_scenarios(draw):
                      "host": draw(st.sampled_from(["a.test", "a.test", "b.test"])),
                      "timeouts": draw(st.sampled_from([None, None, {"connect": 1.0, "read": 2.0, "write": 3.0, "pool": 0}]))})
         plans[tok] = draw(gen.h2_plans() if h2 else gen.h1_plans())
+    seg = draw(st.sampled_from([None, None, [1], [7, 100], [3]]))
+    if seg is not None and min(seg) < 50:
+        # keep one case cheap by construction: one-byte reads only together with small, lightly padded bodies
+        for p in plans.values():
+            p["body_len"] = min(p.get("body_len", 0), 300)
+            if p.get("h2_pad", 0) > 7:
+                p["h2_pad"] = 7
     return {"kind": kind, "requests": reqs, "plans": plans, "retries": draw(st.sampled_from([0, 0, 2])),
             "max_connections": draw(st.sampled_from([10, 1, 2])), "max_keepalive": draw(st.sampled_from([None, None, 0, 1])),
             "faults": [{"at": draw(st.integers(0, 30)), "fault": draw(st.sampled_from(["error", "timeout", "eof"]))} for _ in range(draw(st.sampled_from([0, 0, 1, 2])))],
-            "seg": draw(st.sampled_from([None, None, [1], [7, 100], [3]]))}
+            "seg": seg}
 
 
 def _one(sc, sync, runtime="asyncio"):
